@@ -355,8 +355,10 @@ theorem actorStepWith_cases (first : Bool) (s : State) (c : Cid) :
       · split
         · exact Or.inr ⟨rfl, rfl, rfl, rfl⟩
         · split
-          · exact Or.inl rfl
           · exact Or.inr ⟨rfl, rfl, rfl, rfl⟩
+          · split
+            · exact Or.inl rfl
+            · exact Or.inr ⟨rfl, rfl, rfl, rfl⟩
     · exact Or.inr ⟨rfl, rfl, rfl, rfl⟩
 
 theorem Inv.actorStep {s : State} (inv : Inv s) (c : Cid) : Inv (actorStep s c) := by
@@ -449,6 +451,13 @@ theorem Inv.step {s : State} (inv : Inv s) (op : Op) : Inv (step s op) := by
   | actorExit c => exact inv.exitActor c
   | arrive c => exact inv.congr rfl rfl rfl
   | actorStep c => exact inv.actorStep c
+  | enqueue c =>
+    simp only [C08.step]
+    split
+    · split
+      · exact inv.congr rfl rfl rfl
+      · exact inv
+    · exact inv
 
 theorem Inv.runFrom {s : State} (inv : Inv s) (ops : List Op) : Inv (runFrom s ops) := by
   induction ops generalizing s with
@@ -518,6 +527,12 @@ theorem step_handled (s : State) (op : Op) (k : Cid) :
   | disconnect id sel => exact Or.inl (by simp [C08.step, disconnect_handled])
   | actorExit c => exact Or.inl (by simp [C08.step, exitActor_handled])
   | arrive c => exact Or.inl rfl
+  | enqueue c =>
+    left
+    simp only [C08.step]
+    split
+    · split <;> rfl
+    · rfl
   | actorStep c =>
     simp only [C08.step, C08.actorStep, actorStepWith]
     cases hc : s.conns c with
@@ -538,9 +553,100 @@ theorem step_handled (s : State) (op : Op) (k : Cid) :
             by_cases hin : 0 < s.inbox c
             · simp [hin, hkc]
             · simp only [hin, if_false]
-              by_cases hcn : x.cancelled = true
-              · simp [hcn, exitActor_handled]
-              · simp [hcn]
+              by_cases hout : 0 < s.outq c
+              · simp [hout]
+              · simp only [hout, if_false]
+                by_cases hcn : x.cancelled = true
+                · simp [hcn, exitActor_handled]
+                · simp [hcn]
+      · simp only [hp, if_false]
+        exact Or.inl trivial
+
+/-! ### the `delivered` counter -/
+
+theorem cancel_delivered (s : State) (c : Cid) : (cancel s c).delivered = s.delivered := by
+  unfold cancel; split <;> rfl
+
+theorem foldl_cancel_delivered (l : List Cid) (s : State) : (l.foldl cancel s).delivered = s.delivered := by
+  induction l generalizing s with
+  | nil => rfl
+  | cons a l ih => rw [List.foldl_cons, ih, cancel_delivered]
+
+theorem disconnect_delivered (s : State) (id : Id) (sel : Option Cid) :
+    (disconnect s id sel).delivered = s.delivered := by
+  unfold disconnect
+  split
+  · rfl
+  · split
+    · split
+      · simp [cancel_delivered]
+      · rfl
+    · simp [foldl_cancel_delivered, cancel_delivered]
+
+theorem exitActor_delivered (s : State) (c : Cid) : (exitActor s c).delivered = s.delivered := by
+  unfold exitActor
+  split
+  · rfl
+  · split <;> rfl
+
+theorem advance_delivered (s : State) (c : Cid) (frm to : Phase) : (advance s c frm to).delivered = s.delivered := by
+  unfold advance
+  split
+  · rfl
+  · split <;> rfl
+
+/-- The only step that writes a packet to the client of `k` is a loop iteration of `k`'s own actor
+that finds the connection registered and does not take the cancellation arm. -/
+theorem step_delivered (s : State) (op : Op) (k : Cid) :
+    (step s op).delivered k = s.delivered k ∨
+      (op = .actorStep k ∧ ∃ x, s.conns k = some x ∧ x.phase = .registered ∧
+        (x.cancelled && cancelArmFirst) = false) := by
+  cases op with
+  | request id => exact Or.inl rfl
+  | allow c => exact Or.inl (by simp [C08.step, advance_delivered])
+  | deny c => exact Or.inl (by simp [C08.step, advance_delivered])
+  | confirm c ok => exact Or.inl (by simp [C08.step, advance_delivered])
+  | register c =>
+    left
+    simp only [C08.step]
+    split
+    · rfl
+    · split <;> rfl
+  | disconnect id sel => exact Or.inl (by simp [C08.step, disconnect_delivered])
+  | actorExit c => exact Or.inl (by simp [C08.step, exitActor_delivered])
+  | arrive c => exact Or.inl rfl
+  | enqueue c =>
+    left
+    simp only [C08.step]
+    split
+    · split <;> rfl
+    · rfl
+  | actorStep c =>
+    simp only [C08.step, C08.actorStep, actorStepWith]
+    cases hc : s.conns c with
+    | none => exact Or.inl rfl
+    | some x =>
+      simp only []
+      by_cases hp : x.phase = .registered
+      · simp only [hp, if_true]
+        by_cases hx : (x.cancelled && cancelArmFirst) = true
+        · simp only [hx, if_true]
+          exact Or.inl (by rw [exitActor_delivered])
+        · have hx' : (x.cancelled && cancelArmFirst) = false := by simpa using hx
+          by_cases hkc : k = c
+          · subst hkc
+            exact Or.inr ⟨rfl, x, hc, hp, hx'⟩
+          · left
+            simp only [hx']
+            by_cases hin : 0 < s.inbox c
+            · simp [hin]
+            · simp only [hin, if_false]
+              by_cases hout : 0 < s.outq c
+              · simp [hout, hkc]
+              · simp only [hout, if_false]
+                by_cases hcn : x.cancelled = true
+                · simp [hcn, exitActor_delivered]
+                · simp [hcn]
       · simp only [hp, if_false]
         exact Or.inl trivial
 
